@@ -18,7 +18,8 @@
 //! after m / M / r every view of delta and of total is read:  `D n n n ...  T n n n ...`
 //!   (layout documented at `dump_*`; sets of full tuples are bit masks, one u64 per key:
 //!    bit x*(dom+1)+y; probes range over 0..=dom / 0..=nkeys so that absent values are exercised)
-//! steps are separated by `;`, a panic ends the line with `panic:<message>`.
+//! steps are separated by `;`, a panic ends the line with `panic:<message>`; a panic while one view of the
+//! ternary form is read fills that view's numbers with -1 and reading goes on.
 use std::io::{self, BufRead, Write};
 use std::panic::{self, AssertUnwindSafe};
 
@@ -44,14 +45,14 @@ impl Acc {
       self.n += 1;
    }
    /// masks, then (#entries - #distinct) + 1000 * #out-of-range
-   pub fn out(&self, v: &mut Vec<u64>) {
-      v.extend(self.masks.iter().cloned());
+   pub fn out(&self, v: &mut Vec<i64>) {
+      v.extend(self.masks.iter().map(|m| *m as i64));
       let distinct: u64 = self.masks.iter().map(|m| m.count_ones() as u64).sum();
-      v.push(self.n - distinct + 1000 * self.oob);
+      v.push((self.n - distinct + 1000 * self.oob) as i64);
    }
 }
 
-pub fn join(v: &[u64]) -> String { v.iter().map(|x| x.to_string()).collect::<Vec<_>>().join(" ") }
+pub fn join(v: &[i64]) -> String { v.iter().map(|x| x.to_string()).collect::<Vec<_>>().join(" ") }
 
 pub fn panic_msg(e: Box<dyn std::any::Any + Send>) -> String {
    let s = if let Some(s) = e.downcast_ref::<&str>() {
